@@ -5,9 +5,10 @@ import re
 from vlib import core
 
 DEVS = {  # must-refute deviations of WmoEditor.tla -> the invariants one of which TLC has to report
-    "CreateMisplaced": ("IGroupsParallel",), "StaleGroupIndex": ("IGroupsParallel", "IPostOK"), "DanglingZero": ("ITexRefs", "IMatRefs", "IIdxRefs"),
+    "CreateMisplaced": ("IGroupsParallel",), "StaleGroupIndex": ("IGroupsParallel", "IPostOK"), "DanglingZero": ("ITexRefs", "IMatRefs", "IIdxRefs", "IDoodadRefs", "IPortalRefs"),
     "ErrUnderflow": ("IPostOK",), "NamesCountDrift": ("IHeaderCounts",), "VertexNoFlag": ("IFlagsCoverData", "IPostOK"),
-    "NoRenumber": ("ITexRefs", "IMatRefs", "IIdxRefs", "ISetRanges", "IPostOK"),
+    "AttrsNotParallel": ("IAttrsParallel",),
+    "NoRenumber": ("ITexRefs", "IMatRefs", "IIdxRefs", "IDoodadRefs", "IPortalRefs", "ISetRanges", "IPostOK"),
 }
 ACTIONS = ["AAddTexture", "ARemoveTexture", "AAddMaterial", "ARemoveMaterial", "ACreateGroup", "AAddGroup", "ARemoveGroup", "AAddVertex",
            "ARemoveVertex", "AAddDoodad", "ARemoveDoodad", "AAddDoodadSet", "ARemoveDoodadSet", "AConvert", "ASaveRoot", "ASaveGroup"]
@@ -23,8 +24,8 @@ META = {
                   "end / out of range: referential integrity (texture, material, vertex references, doodad-set ranges), header counts = list "
                   "lengths, groups / infos / flags parallel, flags cover every changed group, and per call: a failed call leaves the object "
                   "unchanged and never panics, a removal renumbers so that every surviving reference resolves to the same element and every "
-                  "doodad set covers the same surviving definitions, modified flags set exactly by the calls that changed something. Seven "
-                  "named deviations (six of them = /repo today) must each be refuted. TLC generates histories (simulation of the as-coded "
+                  "doodad set covers the same surviving definitions, modified flags set exactly by the calls that changed something. Eight "
+                  "named deviations (seven of them = /repo today) must each be refuted. TLC generates histories (simulation of the as-coded "
                   "machine + enumerated families around every removal); the driver replays them on the real editor and logs after every call "
                   "the projection of the whole object; TLC validates call by call against the relied-upon machine and names the deviation "
                   "where the code follows one.",
